@@ -323,6 +323,104 @@ func runC07(c *kit.Ctx) {
 		}
 		c.Unk(s.fn, "slot-store", s.store.Pos(), "store into a result slot with an index of unrecognised provenance ("+kit.Path(idx)+")")
 	}
+
+	// ---- R5 ---------------------------------------------------------------
+	c.StartRule("R5", "what is stored into a slot is a real outcome; every queued call gets one", 4)
+	unbufferedHandoff(c)
+	for _, s := range sites {
+		// (a) an error taken from a context is the error of the context that was seen done
+		if fa, ok := s.store.Addr.(*ssa.FieldAddr); ok && kit.FieldVar(fa.X.Type(), fa.Field).Name() == "Error" {
+			call, ok := kit.Root(s.store.Val).(*ssa.Call)
+			if !ok || kit.CalleeName(call) != ctxErr {
+				continue
+			}
+			y := call.Call.Value
+			good := false
+			for _, st := range selectArmsAt(s.store.Block()) {
+				if dc, ok := kit.Root(st.Chan).(*ssa.Call); ok && kit.CalleeName(dc) == ctxDone && sameContext(dc.Call.Value, y) {
+					good = true
+				}
+			}
+			for _, f := range kit.FactsAt(s.store.Block()) {
+				if cmp, ok := kit.CanonCmp(f.Cond, f.Pol); ok && cmp.Op == token.NEQ && kit.IsNilConst(cmp.Y) {
+					if ec, ok := kit.Root(cmp.X).(*ssa.Call); ok && kit.CalleeName(ec) == ctxErr && sameContext(ec.Call.Value, y) {
+						good = true
+					}
+				}
+			}
+			// or: the store sits in a loop over S[low:] whose low bound is len(S) (no iteration)
+			// unless it was lowered inside the arm that saw <-X.Done()
+			if !good {
+				if lk, ok := kit.Strip(s.ia.Index).(*ssa.Lookup); ok {
+					if l, ok := kit.Root(lk.Index).(*ssa.UnOp); ok {
+						if eia, ok := l.X.(*ssa.IndexAddr); ok {
+							if sl, ok := eia.X.(*ssa.Slice); ok && sl.Low != nil && sl.High == nil {
+								seen := map[ssa.Value]bool{}
+								var lowOK func(v ssa.Value, pred *ssa.BasicBlock) bool
+								lowOK = func(v ssa.Value, pred *ssa.BasicBlock) bool {
+									if ph, ok := v.(*ssa.Phi); ok {
+										if seen[ph] {
+											return true
+										}
+										seen[ph] = true
+										for i, e := range ph.Edges {
+											if !lowOK(e, ph.Block().Preds[i]) {
+												return false
+											}
+										}
+										return true
+									}
+									if ln := kit.LenOf(v); ln != nil && kit.Same(ln, sl.X) {
+										return true
+									}
+									if pred == nil {
+										return false
+									}
+									for _, st := range selectArmsAt(pred) {
+										if dc, ok := kit.Root(st.Chan).(*ssa.Call); ok && kit.CalleeName(dc) == ctxDone && sameContext(dc.Call.Value, y) {
+											return true
+										}
+									}
+									return false
+								}
+								good = lowOK(sl.Low, nil)
+							}
+						}
+					}
+				}
+			}
+			c.Check(good, s.fn, "context-error-is-of-done-context", s.store.Pos(), "Error = X.Err() where <-X.Done() was seen (so it is not nil)",
+				"the slot of a call is given the Err() of a context that is not known to be done here: it can be nil, leaving the call with neither a response nor an error while the batch is reported as not all-OK")
+			continue
+		}
+		// (b) a whole result copied from another result slice is an error result
+		if s.store.Addr == ssa.Value(s.ia) {
+			ld, ok := kit.Root(s.store.Val).(*ssa.UnOp)
+			if !ok || ld.Op != token.MUL {
+				continue
+			}
+			src, ok := ld.X.(*ssa.IndexAddr)
+			if !ok || !isResultSlice(p, src.X.Type()) {
+				continue
+			}
+			good := false
+			for _, f := range kit.FactsAt(s.store.Block()) {
+				cmp, ok := kit.CanonCmp(f.Cond, f.Pol)
+				if !ok || cmp.Op != token.NEQ || !kit.IsNilConst(cmp.Y) {
+					continue
+				}
+				if el, ok := kit.Root(cmp.X).(*ssa.UnOp); ok {
+					if efa, ok := el.X.(*ssa.FieldAddr); ok && kit.FieldVar(efa.X.Type(), efa.Field).Name() == "Error" {
+						if eia, ok := efa.X.(*ssa.IndexAddr); ok && kit.Same(eia.X, src.X) && kit.Same(eia.Index, src.Index) {
+							good = true
+						}
+					}
+				}
+			}
+			c.Check(good, s.fn, "copy-only-error-results", s.store.Pos(), "a result of the location step is copied over a slot only when it carries an error",
+				"a slot is overwritten with the location step's result although that carries no error: the outcome the call already had (its last error, or NotExecutedError) is replaced by an empty result - neither a response nor an error")
+		}
+	}
 }
 
 // successFlag checks rule R4 on SendBatch.
